@@ -87,3 +87,7 @@
 (define-fun modeRegular ((m Int)) Bool (and (not (modeBit m 2147483648)) (not (modeBit m 134217728)) (not (modeBit m 33554432)) (not (modeBit m 16777216)) (not (modeBit m 67108864)) (not (modeBit m 2097152)) (not (modeBit m 524288))))
 ; ValidSubPath(s): normalizeSubpath succeeds
 (define-fun ValidSubPathSpec ((s String)) Bool (or (= s "") (and (validPath s) (not (= (Clean s) ".")))))
+; a ".." segment somewhere in a slash-separated path
+(define-fun hasDotDotSeg ((s String)) Bool (or (= s "..") (str.prefixof "../" s) (str.suffixof "/.." s) (str.contains s "/../")))
+; e is one of the segments strings.Split(s, "/") delivers
+(define-fun segOf ((e String) (s String)) Bool (and (not (str.contains e "/")) (str.contains s e) (=> (= e "..") (hasDotDotSeg s))))
